@@ -212,6 +212,11 @@ func (e *Engine) VerifyFuncCase(key string, targs []string, cf *CaseFix) (rep *F
 	}
 	// global axioms
 	for _, ax := range e.Axioms {
+		if ax.PkgPath != "" && ax.PkgPath != fi.Pkg.PkgPath {
+			// an axiom speaks about the functions of its own package; elsewhere it would only
+			// put quantifiers into every query
+			continue
+		}
 		var spkg *types.Package
 		if p := e.All[ax.PkgPath]; p != nil {
 			spkg = p.Types
